@@ -1,10 +1,191 @@
 import CalVerif.Lemmas.BiffStrings
 /-! # C12 — XLS strings decode identically however records are split and characters packed
-    Property theorems only (helper lemmas live in `Lemmas/BiffStrings.lean`). -/
+
+    Property theorems only (helper lemmas live in `Lemmas/BiffStrings.lean`).
+    Model: `Model/BiffStrings.lean` (RecordIter, continue_record, skip, decode_to, read_dbcs,
+    read_rich_extended_string, parse_sst). Encoder and `Legal` layouts: `Spec/SstEnc.lean`.
+    Text = list of Unicode scalar values; `decodeUtf16` is the (trusted) behaviour of encoding_rs on the
+    code units of one segment, `utf16` the writer's encoding of a text. -/
 namespace Biff
 
-/-- `Record::skip n` consumes exactly `n` bytes when they sit in the current fragment -/
+/-! ## framing -/
+
+/-- `RecordIter` gathers a record and its CONTINUE records back into exactly the fragments that were framed:
+    payload `d`, continuation payloads `conts` (each non-empty and, like `d`, shorter than 2^16), whatever
+    non-CONTINUE bytes `rest` follow. -/
+theorem frame_roundtrip (typ : Nat) (d : Bytes) (conts : List Bytes) (rest : Bytes)
+    (ht : typ < 65536) (hd : d.length < 65536) (hall : ∀ f ∈ conts, f ≠ [] ∧ f.length < 65536)
+    (hrest : notCont rest) :
+    nextRecord (frameRec typ d conts ++ rest) = some (.ok (⟨typ, d, conts⟩, rest)) :=
+  nextRecord_frameRec typ d conts rest ht hd hall hrest
+
+/-! ## characters -/
+
+/-- one segment (all the characters still owed) is read exactly under either packing — 16-bit, or 8-bit
+    when every unit is < 0x100 — and the reader stops on the byte after it -/
+theorem dbcs_segment (wide : Bool) (us : List Nat) (tail : Bytes) (cont : List Bytes)
+    (hlt : ∀ u ∈ us, u < 65536) (hpack : wide = false → ∀ u ∈ us, u < 256) :
+    readDbcs us.length wide (encUnits wide us ++ tail) cont = .ok (decodeUtf16 us, ⟨tail, cont⟩) :=
+  readDbcs_last wide us tail cont hlt hpack
+
+/-- the split-read invariant ("`data` = unread rest of the current fragment, `cont` = fragments still queued,
+    `n` = characters still owed"): a first segment `s0` and then one CONTINUE record per further non-empty
+    segment, each with its own packing announced by a fresh flag byte, read back as the segments' text in
+    order; the reader stops exactly after the last character (state `lay rest`). -/
+theorem dbcs_split_invariant (segs : List (List Nat × Bool)) (s0 : List Nat) (w0 : Bool) (n : Nat) (rest : List Tok)
+    (hn : n = s0.length + (segs.map (·.1.length)).sum)
+    (h0 : ∀ u ∈ s0, u < 65536) (hp0 : packOk (s0, w0))
+    (hall : ∀ p ∈ segs, (∀ u ∈ p.1, u < 65536) ∧ packOk p ∧ p.1 ≠ []) :
+    readDbcs n w0 (lay (.b (encUnits w0 s0) :: (contToks segs ++ rest))).1
+        (lay (.b (encUnits w0 s0) :: (contToks segs ++ rest))).2
+      = .ok (decodeUtf16 s0 ++ (segs.map (decodeUtf16 ·.1)).flatten, ⟨(lay rest).1, (lay rest).2⟩) :=
+  readDbcs_segs segs s0 w0 n rest hn h0 hp0 hall
+
+/-- decoding segment by segment gives the text of the whole string as long as no break separates a high
+    surrogate from its low surrogate (the first segment may be empty, later ones are not) -/
+theorem segments_decode_as_whole (s0 : List Nat) (segs : List (List Nat))
+    (hp : pairsKept (s0 :: segs)) (hne : ∀ s ∈ segs, s ≠ []) :
+    decodeUtf16 s0 ++ (segs.map decodeUtf16).flatten = decodeUtf16 (s0 ++ segs.flatten) :=
+  decodeUtf16_segments segs s0 hp hne
+
+/-- the writer's UTF-16 form of a text decodes back to the text -/
+theorem utf16_roundtrip : ∀ (cs : List Nat), (∀ c ∈ cs, isScalar c) → decodeUtf16 (utf16 cs) = cs
+  | [], _ => rfl
+  | c :: cs, h => by
+    have hc : isScalar c := h c (by simp)
+    have ih := utf16_roundtrip cs (fun x hx => h x (by simp [hx]))
+    unfold isScalar at hc
+    by_cases hb : c < 65536
+    · have hu16 : utf16 (c :: cs) = c :: utf16 cs := by simp [utf16, hb]
+      have hh : isHigh c = false := isHigh_false c (by omega)
+      have hl : isLow c = false := isLow_false c (by omega)
+      rw [hu16]
+      cases hu : utf16 cs with
+      | nil =>
+        rw [hu] at ih
+        have : cs = [] := by simpa [decodeUtf16] using ih.symm
+        simp [decodeUtf16, hh, hl, this]
+      | cons v r =>
+        rw [decodeUtf16_cons2, ← hu, ih]
+        simp [hh, hl]
+    · have hu16 : utf16 (c :: cs) =
+          (55296 + (c - 65536) / 1024) :: (56320 + (c - 65536) % 1024) :: utf16 cs := by simp [utf16, hb]
+      rw [hu16, decodeUtf16_cons2, ih]
+      have hh : isHigh (55296 + (c - 65536) / 1024) = true := isHigh_true _ (by omega)
+      have hl : isLow (56320 + (c - 65536) % 1024) = true := isLow_true _ (by omega)
+      simp only [hh, hl, if_true, List.cons.injEq, and_true]
+      omega
+
+/-! ## skipping rgRun / ExtRst -/
+
+/-- `Record::skip` across fragment boundaries consumes exactly the block: a block of `bs.length` bytes, broken
+    into CONTINUE records at any byte offsets (`cuts`; every continuation chunk non-empty), is skipped and the
+    reader is left on the first byte after it — nothing of what follows (`rest`) is eaten. -/
+theorem skip_consumes_exactly (bs : Bytes) (cuts : List Nat) (rest : List Tok) (h : blockOk (some bs) cuts) :
+    skip bs.length (lay (blockToks (some bs) cuts ++ rest)).1 (lay (blockToks (some bs) cuts ++ rest)).2
+      = .ok ⟨(lay rest).1, (lay rest).2⟩ :=
+  skip_block bs cuts rest h
+
+/-- special case inside one fragment -/
 theorem skip_prefix_exact (x tail : Bytes) (cont : List Bytes) :
     skip x.length (x ++ tail) cont = .ok ⟨tail, cont⟩ := skip_prefix x tail cont
+
+/-! ## one string -/
+
+/-- an entry written without any break (header, characters in one packing, rgRun, ExtRst) reads back as
+    its text; rich-text runs and extended data are skipped and the reader stands exactly after the entry -/
+theorem read_string_unsplit (e : Entry) (wide : Bool) (tail : Bytes) (cont : List Bytes)
+    (hlt : ∀ u ∈ e.units, u < 65536) (hcch : e.units.length < 65536)
+    (hpack : wide = false → ∀ u ∈ e.units, u < 256)
+    (hruns : runsLenOk e.runs) (hext : extLenOk e.ext) :
+    readRichAt ⟨header e wide ++ (encUnits wide e.units ++ ((e.runs.getD []) ++ ((e.ext.getD []) ++ tail))), cont⟩
+      = .ok (decodeUtf16 e.units, ⟨tail, cont⟩) := by
+  rw [readRichAt_header e wide _ _ hcch hruns hext, readDbcs_last wide e.units _ _ hlt hpack]
+  simp only [Res.bind_ok, runBytes, extBytes]
+  have h1 : optLen e.runs = (e.runs.getD []).length := by cases e.runs <;> rfl
+  have h2 : optLen e.ext = (e.ext.getD []).length := by cases e.ext <;> rfl
+  rw [h1, skip_prefix]
+  simp only [Res.bind_ok]
+  rw [h2, skip_prefix]
+  rfl
+
+/-- an entry under any legal layout — CONTINUE break before it, breaks between its characters with a fresh
+    flag byte and any 8/16-bit packing per segment, breaks inside rgRun and ExtRst — reads back as its text,
+    and the reader stands exactly where the next entry starts (`lay rest`) -/
+theorem read_string_split (e : Entry) (ly : EntryLayout) (hok : EntryOk e ly) (rest : List Tok) :
+    readRich ⟨(lay (entryToks e ly ++ rest)).1, (lay (entryToks e ly ++ rest)).2⟩
+      = .ok (decodeUtf16 e.units, ⟨(lay rest).1, (lay rest).2⟩) :=
+  readRich_entry e ly hok rest
+
+/-! ## the table -/
+
+/-- no CONTINUE record produced by the encoder under a legal layout is empty (so the D31-b situation
+    never arises on well-formed input) -/
+theorem encoded_fragments_nonempty (cstTotal : Nat) (table : List Entry) (lys : List EntryLayout)
+    (h : Legal cstTotal table lys) : ∀ f ∈ (encodeSst cstTotal table lys).tail, f ≠ [] := by
+  intro f hf
+  exact lay_good (.b (le32 cstTotal ++ le32 table.length) :: tableToks table lys)
+    (by simp only [goodToks]; exact goodToks_tableToks table lys h.entries) f hf
+
+/-- **round trip**: for every table and every legal layout λ (`lys`), framing the encoded SST + CONTINUE
+    records and running `RecordIter` + `parse_sst` over the stream gives the text of every string, in order -/
+theorem sst_roundtrip (cstTotal : Nat) (table : List Entry) (lys : List EntryLayout)
+    (h : Legal cstTotal table lys) (fuel : Nat) :
+    sstFromStream (fuel + 1) (frameSst (encodeSst cstTotal table lys))
+      = .ok (table.map fun e => decodeUtf16 e.units) :=
+  sstFromStream_encode cstTotal table lys h.entries h.count
+    (fun f hf => Nat.lt_of_le_of_lt (h.sizes f hf) (by omega)) fuel
+
+/-- the same at the level of the gathered record (what `parse_sst` is handed by `parse_workbook`) -/
+theorem parseSst_roundtrip (cstTotal : Nat) (table : List Entry) (lys : List EntryLayout)
+    (h : Legal cstTotal table lys) :
+    parseSst ⟨0xFC, (encodeSst cstTotal table lys).headD [], (encodeSst cstTotal table lys).tail⟩
+      = .ok (table.map fun e => decodeUtf16 e.units) :=
+  parseSst_encode cstTotal table lys h.entries h.count 0xFC
+
+/-- **layout independence**: two legal layouts of the same table (different break sets, different packings,
+    different cstTotal) decode to the same strings -/
+theorem sst_layout_independent (t1 t2 : Nat) (table : List Entry) (l1 l2 : List EntryLayout)
+    (h1 : Legal t1 table l1) (h2 : Legal t2 table l2) (f1 f2 : Nat) :
+    sstFromStream (f1 + 1) (frameSst (encodeSst t1 table l1))
+      = sstFromStream (f2 + 1) (frameSst (encodeSst t2 table l2)) := by
+  rw [sst_roundtrip t1 table l1 h1, sst_roundtrip t2 table l2 h2]
+
+/-- **text round trip**: a table of texts (scalar values), stored as UTF-16 with optional runs / extended
+    blocks, reads back as those texts under every legal layout -/
+theorem sst_text_roundtrip (cstTotal : Nat) (texts : List (List Nat)) (table : List Entry) (lys : List EntryLayout)
+    (htexts : table.map (·.units) = texts.map utf16) (hscalar : ∀ t ∈ texts, ∀ c ∈ t, isScalar c)
+    (h : Legal cstTotal table lys) (fuel : Nat) :
+    sstFromStream (fuel + 1) (frameSst (encodeSst cstTotal table lys)) = .ok texts := by
+  rw [sst_roundtrip cstTotal table lys h]
+  congr 1
+  have : (table.map fun e => decodeUtf16 e.units) = (table.map (·.units)).map decodeUtf16 := by
+    rw [List.map_map]; rfl
+  rw [this, htexts, List.map_map]
+  conv => rhs; rw [← List.map_id texts]
+  apply List.map_congr_left
+  intro t ht
+  exact utf16_roundtrip t (hscalar t ht)
+
+/-! ## non-vacuity: a concrete table and two different legal layouts -/
+
+/-- "ab " then U+1F600 with one rich-text run and two ExtRst bytes -/
+def exTable : List Entry :=
+  [{ units := [0x61, 0x62, 0x20] }, { units := [0xD83D, 0xDE00], runs := some [1, 2, 3, 4], ext := some [0xAA, 0xBB] }]
+
+/-- break after 'a' switching to 8-bit packing; break before the 2nd string; break inside ExtRst -/
+def exLayoutA : List EntryLayout :=
+  [{ wide0 := true, cuts := [(1, false)] }, { cutBefore := true, wide0 := true, extCuts := [1] }]
+
+/-- no voluntary break, first string compressed -/
+def exLayoutB : List EntryLayout := [{ wide0 := false }, { wide0 := true }]
+
+example : Legal 3 exTable exLayoutA := by decide
+example : Legal 2 exTable exLayoutB := by decide
+example : frameSst (encodeSst 3 exTable exLayoutA) ≠ frameSst (encodeSst 2 exTable exLayoutB) := by decide
+example : sstFromStream 1 (frameSst (encodeSst 3 exTable exLayoutA)) = .ok [[0x61, 0x62, 0x20], [0x1F600]] :=
+  sst_roundtrip 3 exTable exLayoutA (by decide) 0
+/-- a break inside the surrogate pair is not legal -/
+example : ¬ Legal 1 [{ units := [0xD83D, 0xDE00] }] [{ wide0 := true, cuts := [(1, true)] }] := by decide
 
 end Biff
